@@ -259,6 +259,18 @@ func StructureMutants(msg []byte) (out []Mutant, ok bool) {
 			}
 			// the content replaced by nothing / one byte while the prefix stays
 			mutate("content-dropped", false, func(x *Node) { x.Len = uvarint(uint64(l)); x.Nested = false; x.Payload = nil })
+			// the content cut at every offset, all enclosing length prefixes consistent: the
+			// inner decoder runs into the end of ITS data right after a key / inside a value
+			if l > 0 && (n.Nested || d == 0) {
+				step := 1
+				if l > 400 {
+					step = l / 200
+				}
+				for cut := 1; cut < l; cut += step {
+					cut := cut
+					mutate("content-truncated", false, func(x *Node) { c := x.content(); x.Nested = false; x.Payload = c[:cut:cut] })
+				}
+			}
 			if l > 0 {
 				mutate("content-emptied", false, func(x *Node) { x.Nested = false; x.Payload = nil })
 				mutate("content-doubled", false, func(x *Node) { c := x.content(); x.Nested = false; x.Payload = append(append([]byte{}, c...), c...) })
